@@ -91,6 +91,8 @@ class AttributeCollection(MutableMapping[int, Attribute]):
     # ... and the AS number width it was parsed under: the same bytes are another AS_PATH or
     # AGGREGATOR (or a malformed one) on a session which negotiated the other width
     cached_asn4: ClassVar[bool | None] = None
+    # ... and whether AIGP was accepted on that session (it is discarded where it is not enabled)
+    cached_aigp: ClassVar[bool | None] = None
 
     representation: ClassVar[dict[int, tuple[str, str, str | tuple[str, ...], str, str]]] = {
         # key:  (how, default, name, text_presentation, json_presentation),
@@ -362,7 +364,12 @@ class AttributeCollection(MutableMapping[int, Attribute]):
 
     @classmethod
     def unpack(cls, data: Buffer, negotiated: Negotiated) -> AttributeCollection:
-        if cls.cached and data == cls.previous and negotiated.asn4 == cls.cached_asn4:
+        if (
+            cls.cached
+            and data == cls.previous
+            and negotiated.asn4 == cls.cached_asn4
+            and negotiated.aigp == cls.cached_aigp
+        ):
             return cls.cached
 
         attributes = cls().parse(data, negotiated)
@@ -379,6 +386,7 @@ class AttributeCollection(MutableMapping[int, Attribute]):
             cls.previous = data
             cls.cached = attributes
             cls.cached_asn4 = negotiated.asn4
+            cls.cached_aigp = negotiated.aigp
         else:
             cls.previous = b''
             cls.cached = None
